@@ -126,6 +126,11 @@ def run_case(c):
         for k in range(64):
             l1, l2 = r.sample(range(BC), 2)
             plan.append(([(l1, r.randrange(code_bits)), (l2, r.randrange(code_bits))], "two-singles"))
+        # one lane with a single flip and another lane of the same beat with a double flip: both events must be reported
+        for k in range(32):
+            l1, l2 = r.sample(range(BC), 2)
+            b, c2 = r.sample(range(code_bits), 2)
+            plan.append(([(l1, r.randrange(code_bits)), (l2, b), (l2, c2)], "single-plus-double"))
     elif cls == "clean-and-disabled":
         for k in range(24):
             plan.append(([], "clean"))
@@ -146,7 +151,7 @@ def run_case(c):
                 bpl = lane // 8
                 part = r.randrange(1, (1 << bpl) - 1)       # some but not all bytes of one lane
                 wemasks[k] = (full_we & ~(((1 << bpl) - 1) << (ln * bpl))) | (part << (ln * bpl))
-    res = dict(v=[], judged=0, sec_exceptions={}, positions=set())
+    res = dict(v=[], judged=0, sec_exceptions={}, positions=set(), mixed_sec_exceptions=set())
     counters = [ecc.sec_errors.status, ecc.ded_errors.status, ecc.sec_detected, ecc.ded_detected, ecc.we_errors.status]
     state = dict(done=False)
 
@@ -264,6 +269,15 @@ def run_case(c):
                     res["v"].append(dict(w_, problem="independent single flips in two lanes not corrected"))
                 if d_ded:
                     res["v"].append(dict(w_, problem="independent single flips reported as uncorrectable"))
+            elif kind == "single-plus-double":
+                l1, p1 = flips[0]
+                lane_mask = ((1 << lane) - 1) << (l1 * lane)
+                if (rd ^ data[k]) & lane_mask:
+                    res["v"].append(dict(w_, problem="single flip beside a double flip in another lane: its own lane not corrected"))
+                if d_ded != 1:
+                    res["v"].append(dict(w_, problem="double flip (beside a single flip in another lane) not counted as uncorrectable"))
+                if d_sec == 0:
+                    res["mixed_sec_exceptions"].add(p1)
             elif kind == "disabled":
                 if d_sec or d_ded:
                     res["v"].append(dict(w_, problem="decoder disabled but errors were counted"))
@@ -275,6 +289,9 @@ def run_case(c):
     v = res["v"] + list(stub.events) + (stub.dfi_events() if c.get("core") else [])
     if reason == "cycle-cap":
         v.append(dict(kind="no-progress"))
+    if len(res["mixed_sec_exceptions"]) > 1:
+        v.append(dict(kind="single-flip-beside-double-flip-not-counted-as-corrected", positions=sorted(res["mixed_sec_exceptions"]),
+                      lane_bits=lane, note="at most one position (the overall parity bit) may go uncounted"))
     # the only tolerated "not counted" single flips: one position per lane, the same in every lane
     if cls == "single":
         for ln, ps in res["sec_exceptions"].items():
